@@ -111,9 +111,10 @@ constexpr char m0[] = "[1-9][0-9]*"; constexpr char m1[] = "(a|b)*"; constexpr c
 constexpr char m4[] = "a{5}"; constexpr char m5[] = "[^a-z]"; constexpr char m6[] = "."; constexpr char m7[] = R"(\x00|\xff)"; constexpr char m8[] = "0|[1-9][0-9]*";
 constexpr char m9[] = "a*b|a*"; constexpr char m10[] = "ab"; constexpr char m11[] = R"("([^\\"]|\\.)*")"; constexpr char m12[] = "(ab|cd)+e?"; constexpr char m13[] = "[--Z-]";
 constexpr char m14[] = "[0-9]+ [a-z]+"; constexpr char m15[] = R"("[\x20-\x21\x23-\xff]*")"; constexpr char m16[] = R"([\x7e-\x81]+x{2})"; constexpr char m17[] = R"(\x2b\x3D= =)";
+constexpr char m18[] = "(ab|c){3}d"; constexpr char m19[] = "[0-9]{4}(-[0-9]{2}){2}";        // a repeated GROUP (inner states have transitions of their own)
 constexpr regex::expr<m0> r0; constexpr regex::expr<m1> r1; constexpr regex::expr<m2> r2; constexpr regex::expr<m3> r3; constexpr regex::expr<m4> r4; constexpr regex::expr<m5> r5; constexpr regex::expr<m6> r6;
 constexpr regex::expr<m7> r7; constexpr regex::expr<m8> r8; constexpr regex::expr<m9> r9; constexpr regex::expr<m10> r10; constexpr regex::expr<m11> r11; constexpr regex::expr<m12> r12; constexpr regex::expr<m13> r13;
-constexpr regex::expr<m14> r14; constexpr regex::expr<m15> r15; constexpr regex::expr<m16> r16; constexpr regex::expr<m17> r17;
+constexpr regex::expr<m14> r14; constexpr regex::expr<m15> r15; constexpr regex::expr<m16> r16; constexpr regex::expr<m17> r17; constexpr regex::expr<m18> r18; constexpr regex::expr<m19> r19;
 }
 
 // ------------------------------------------------------------------------------------------------- statistics
@@ -231,7 +232,7 @@ static NestRef nest_ref(const std::string& in, bool skip_ws, bool skip_nl)
 // reference automata for the compiled patterns of the `match` target (built once at start-up); a pattern whose pinned construction is
 // known to differ from the reference (finding F5) is compared with the model of that construction instead
 struct MatchRef { rx::Dfa dfa; bool uses_model = false; };
-static const char* const match_patterns[18] = {P::m0, P::m1, P::m2, P::m3, P::m4, P::m5, P::m6, P::m7, P::m8, P::m9, P::m10, P::m11, P::m12, P::m13, P::m14, P::m15, P::m16, P::m17};
+static const char* const match_patterns[20] = {P::m0, P::m1, P::m2, P::m3, P::m4, P::m5, P::m6, P::m7, P::m8, P::m9, P::m10, P::m11, P::m12, P::m13, P::m14, P::m15, P::m16, P::m17, P::m18, P::m19};
 static std::vector<MatchRef>& match_refs()
 {
     static std::vector<MatchRef> v = []
@@ -324,8 +325,9 @@ extern "C" int LLVMFuzzerTestOneInput(const uint8_t* data, size_t size)
     }
     else if (t == "match")
     {
-        switch (sel % 18)
+        switch (sel % 20)
         {
+        case 18: match_one(P::r18, in, (sel & 128) != 0, 18); break; case 19: match_one(P::r19, in, (sel & 128) != 0, 19); break;
         case 14: match_one(P::r14, in, (sel & 128) != 0, 14); break; case 15: match_one(P::r15, in, (sel & 128) != 0, 15); break; case 16: match_one(P::r16, in, (sel & 128) != 0, 16); break; case 17: match_one(P::r17, in, (sel & 128) != 0, 17); break;
         case 0: match_one(P::r0, in, (sel & 128) != 0, 0); break; case 1: match_one(P::r1, in, (sel & 128) != 0, 1); break; case 2: match_one(P::r2, in, (sel & 128) != 0, 2); break; case 3: match_one(P::r3, in, (sel & 128) != 0, 3); break;
         case 4: match_one(P::r4, in, (sel & 128) != 0, 4); break; case 5: match_one(P::r5, in, (sel & 128) != 0, 5); break; case 6: match_one(P::r6, in, (sel & 128) != 0, 6); break; case 7: match_one(P::r7, in, (sel & 128) != 0, 7); break;
